@@ -220,6 +220,8 @@ pub struct HybState {
     pub close_ver: Option<u32>,
     /// number of device writes issued by the workload proper (C04 / C03: later writes belong to recoveries)
     pub crash_writes: usize,
+    /// number of hand-offs attributed by the workload proper (later ones belong to recoveries / second lives)
+    pub crash_handoffs: usize,
     /// lookups the caller abandoned while they were still pending (key, invoke sequence number): foyer's fetch task
     /// carries on in the background. Cleared by a restart (memory and tasks are gone).
     pub bg_lookups: Vec<(u64, u64)>,
@@ -591,7 +593,7 @@ fn model_write(k: u64, ver: u32, len: usize, loc: u8, class: u32) {
 
 /// Makes the key and the version known to the model before the operation runs (probes fired from inside the operation
 /// are attributed through the model) without making it current yet.
-fn model_register(k: u64, ver: u32, len: usize, loc: u8, class: u32) {
+pub fn model_register(k: u64, ver: u32, len: usize, loc: u8, class: u32) {
     ST.with(|s| {
         let mut s = s.borrow_mut();
         let m = s.model.entry(k).or_default();
@@ -631,7 +633,7 @@ fn model_clear() {
     });
 }
 
-fn fresh_ver() -> u32 {
+pub fn fresh_ver() -> u32 {
     ST.with(|s| {
         let mut s = s.borrow_mut();
         s.next_ver += 1;
@@ -1122,7 +1124,7 @@ pub fn exec(case: &Case) {
             let ret = hist::ev("ret", 0, idx as u64, res.tag as u64);
             ST.with(|s| s.borrow_mut().oplog.push(OpRec { client: 0, idx, op: op.clone(), inv, ret, res }));
         }
-        if case.clients.len() > 1 {
+        if case.clients.len() > 1 && matches!(case.property.as_str(), "C06" | "C11") {
             concurrent_round(&mut h).await;
         }
         crate::hyboracle::end_of_workload(&mut h).await;
